@@ -3,6 +3,7 @@ package gencheck
 import (
 	"bytes"
 	"fmt"
+	"github.com/CrowdStrike/csproto"
 	"os"
 	"reflect"
 	"regexp"
@@ -133,7 +134,11 @@ func (rn *runner) marshalCase(t *Target, name string, ref *dynamicpb.Message, la
 		var sz2 int
 		var dest []byte
 		var terr error
-		if p := safeCall(func() { sz2 = fm2.Size(); dest = make([]byte, sz2); terr = fm2.MarshalTo(dest) }); p != "" {
+		if p := safeCall(func() {
+			sz2 = fm2.Size()
+			dest = bytes.Repeat([]byte{0xAA}, sz2) // a byte MarshalTo leaves untouched (slack) stays visible
+			terr = fm2.MarshalTo(dest)
+		}); p != "" {
 			outcome = "marshalto-panic"
 			Violation("C04", "marshal", "marshalto-panic/"+sigOf(ref), "MarshalTo(make([]byte, Size())) panicked", desc, "no panic", p)
 		} else if terr == nil && !sameModuloMaps(md, dest, b) {
@@ -232,13 +237,21 @@ func sameModuloMaps(md protoreflect.MessageDescriptor, a, b []byte) bool {
 }
 
 // singleFieldCases: each field alone at boundary values (zero, empty, negative, extremes).
-func (rn *runner) singleFieldCases(t *Target, name string) {
-	md := t.desc(name)
+// singleFieldMessages: each field alone at boundary values (zero, empty, negative, extremes) on top of
+// the minimal message; with emptyNested a message-typed field holds an empty message even when its type
+// declares required fields (C17).
+func singleFieldMessages(md protoreflect.MessageDescriptor, emptyNested bool, yield func(label string, m *dynamicpb.Message)) {
 	base := func() *dynamicpb.Message {
 		if hasRequired(md) {
 			return minimalMessage(md)
 		}
 		return dynamicpb.NewMessage(md)
+	}
+	nested := func(d protoreflect.MessageDescriptor) protoreflect.Value {
+		if emptyNested {
+			return protoreflect.ValueOfMessage(dynamicpb.NewMessage(d))
+		}
+		return protoreflect.ValueOfMessage(minimalMessage(d))
 	}
 	for i := 0; i < md.Fields().Len(); i++ {
 		fd := md.Fields().Get(i)
@@ -251,7 +264,7 @@ func (rn *runner) singleFieldCases(t *Target, name string) {
 				for j := 0; j < k; j++ {
 					var v protoreflect.Value
 					if fd.MapValue().Kind() == protoreflect.MessageKind {
-						v = protoreflect.ValueOfMessage(minimalMessage(fd.MapValue().Message()))
+						v = nested(fd.MapValue().Message())
 					} else {
 						v = boundary(fd.MapValue(), j+k)
 					}
@@ -261,7 +274,7 @@ func (rn *runner) singleFieldCases(t *Target, name string) {
 				l := m.Mutable(fd).List()
 				for j := 0; j < k; j++ {
 					if fd.Kind() == protoreflect.MessageKind {
-						l.Append(protoreflect.ValueOfMessage(minimalMessage(fd.Message())))
+						l.Append(nested(fd.Message()))
 					} else {
 						l.Append(boundary(fd, j+k))
 					}
@@ -270,14 +283,21 @@ func (rn *runner) singleFieldCases(t *Target, name string) {
 				if k == 0 {
 					continue
 				}
-				m.Set(fd, protoreflect.ValueOfMessage(minimalMessage(fd.Message())))
+				m.Set(fd, nested(fd.Message()))
 			default:
 				m.Set(fd, boundary(fd, k))
 			}
-			rn.marshalCase(t, name, m, label)
+			yield(label, m)
 		}
 	}
-	rn.marshalCase(t, name, base(), "minimal")
+	yield("minimal", base())
+}
+
+func (rn *runner) singleFieldCases(t *Target, name string) {
+	singleFieldMessages(t.desc(name), false, func(label string, m *dynamicpb.Message) { rn.marshalCase(t, name, m, label) })
+	if rn.prop == "C17" {
+		singleFieldMessages(t.desc(name), true, func(label string, m *dynamicpb.Message) { rn.marshalCase(t, name, m, label+" (empty nested)") })
+	}
 }
 
 func boundary(fd protoreflect.FieldDescriptor, k int) protoreflect.Value {
@@ -315,7 +335,7 @@ func (rn *runner) runMarshal(ts []*Target, n int) {
 			rn.singleFieldCases(t, name)
 			md := t.desc(name)
 			for i := 0; i < n; i++ {
-				ref := randMessage(rn.r, md, genOpts{requiredAlways: rn.prop != "C17"})
+				ref := randMessage(rn.r, md, genOpts{requiredAlways: rn.prop != "C17", exts: t.extTypes()})
 				label := "random"
 				if rn.r.Chance(1, 5) {
 					// a message that carries unknown fields (read from a newer writer): they count and are written
@@ -521,7 +541,8 @@ func randUnknown(r *prng.Rng, md protoreflect.MessageDescriptor) rec {
 	case 2:
 		return rec{num, protowire.Fixed64Type, protowire.AppendFixed64(nil, r.U64())}
 	default:
-		return lenRec(num, r.Bytes(r.Intn(6)))
+		// lengths around the one-byte / two-byte boundary of the length prefix too
+		return lenRec(num, r.Bytes([]int{0, 1, 2, 3, 4, 5, 127, 128, 129, 255, 256, 300}[r.Intn(12)]))
 	}
 }
 
@@ -907,6 +928,39 @@ func damage(r *prng.Rng, b []byte) ([]byte, string) {
 	return append(b, 0x80), "dangling-continuation"
 }
 
+type pathCase struct {
+	what string
+	enc  []byte
+}
+
+// pathological: a fixed corpus that runs first — declared lengths around every boundary the decoder
+// compares against (2^31, 2^32, 2^63, 2^64), on a field the type knows and on one it must skip.
+func pathological(md protoreflect.MessageDescriptor) []pathCase {
+	var out []pathCase
+	nums := []protowire.Number{900}
+	for i := 0; i < md.Fields().Len(); i++ {
+		fd := md.Fields().Get(i)
+		if fd.Kind() == protoreflect.StringKind || fd.Kind() == protoreflect.BytesKind || fd.Kind() == protoreflect.MessageKind || fd.IsPacked() {
+			nums = append(nums, fd.Number())
+			break
+		}
+	}
+	for _, num := range nums {
+		for md.Fields().ByNumber(num) == nil && md.ExtensionRanges().Has(num) {
+			num = 19000 - 1
+			break
+		}
+		for _, l := range []uint64{1<<31 - 1, 1 << 31, 1<<32 - 1, 1 << 32, 1 << 35, 1<<63 - 1, 1 << 63, 1<<64 - 1, 1<<63 - 9, 1<<63 - 2} {
+			for _, tail := range [][]byte{nil, {1, 2, 3}} {
+				b := protowire.AppendTag(nil, num, protowire.BytesType)
+				b = protowire.AppendVarint(b, l)
+				out = append(out, pathCase{fmt.Sprintf("declared-length-%d-on-field-%d", l, num), append(b, tail...)})
+			}
+		}
+	}
+	return out
+}
+
 func (rn *runner) runUnmarshal(ts []*Target, n int) {
 	for _, t := range ts {
 		for _, name := range sortedNames(t.Messages) {
@@ -914,12 +968,27 @@ func (rn *runner) runUnmarshal(ts []*Target, n int) {
 			if rn.prop == "C17" {
 				rn.unmarshalCase(t, name, nil, []string{"empty-input"}, false)
 			}
+			if rn.prop == "C08" {
+				for _, pc := range pathological(md) {
+					rn.unmarshalCase(t, name, pc.enc, []string{pc.what}, true)
+				}
+			}
+			if rn.prop == "C06" || rn.prop == "C08" || rn.prop == "C10" {
+				// every field alone at its boundary values, as the reference encodes it and rewritten
+				singleFieldMessages(md, false, func(label string, m *dynamicpb.Message) {
+					enc := refBytes(m)
+					rn.unmarshalCase(t, name, enc, []string{label}, false)
+					if v, applied := variant(rn.r, md, enc, 0, true); len(applied) > 0 {
+						rn.unmarshalCase(t, name, v, append([]string{label}, applied...), false)
+					}
+				})
+			}
 			for i := 0; i < n; i++ {
-				ref := randMessage(rn.r, md, genOpts{requiredAlways: rn.prop != "C17"})
+				ref := randMessage(rn.r, md, genOpts{requiredAlways: rn.prop != "C17", exts: t.extTypes()})
 				enc := refBytes(ref)
 				var applied []string
 				if rn.prop != "C17" {
-					enc, applied = variant(rn.r, md, enc, 0, rn.prop != "C10")
+					enc, applied = variant(rn.r, md, enc, 0, true)
 				}
 				if rn.prop == "C08" {
 					var how string
@@ -1221,6 +1290,60 @@ func (rn *runner) runHistories(ts []*Target, n int) {
 			for i := 0; i < n; i++ {
 				rn.history(t, name, 4+rn.r.Intn(9))
 			}
+			if t.Runtime == "gogo" {
+				for i := 0; i < n; i++ {
+					rn.plainHistory(t, name)
+				}
+			}
+		}
+	}
+}
+
+// plainHistory: the same clause through csproto.Marshal on a message WITHOUT generated methods (the gogo
+// twin type, served by csproto's XXX_Size/XXX_Marshal arm): never sized before, then after a mutation of
+// a nested message — each result must decode to the current contents.
+func (rn *runner) plainHistory(t *Target, name string) {
+	md := t.desc(name)
+	ref := randMessage(rn.r, md, genOpts{requiredAlways: true})
+	tw := t.Messages[name].Twin()
+	if err := tw.(xxxUnmarshaler).XXX_Unmarshal(refBytes(ref)); err != nil && !strings.Contains(err.Error(), "required") {
+		return
+	}
+	var log []string
+	check := func() bool {
+		log = append(log, "csproto.Marshal")
+		desc := map[string]interface{}{"type": t.where(name) + " (plain twin)", "history": strings.Join(log, " ; ")}
+		var got []byte
+		var err error
+		if p := safeCall(func() { got, err = csproto.Marshal(tw) }); p != "" {
+			Violation("C09", "histories", "stale-state/csproto-marshal-plain-panic", "csproto.Marshal panicked on a message served by the runtime arm", desc, "no panic", p)
+			return false
+		}
+		if err != nil {
+			return true
+		}
+		// a fresh deep copy through the runtime: size pass, then marshal
+		cp := t.Messages[name].Twin()
+		isoCopy(reflect.ValueOf(cp).Elem(), reflect.ValueOf(tw).Elem(), twinTypes(cp))
+		cp.(xxxMarshaler).XXX_Size()
+		want, werr := cp.(xxxMarshaler).XXX_Marshal(nil, true)
+		if werr != nil {
+			return true
+		}
+		if !sameModuloMaps(md, got, want) {
+			Violation("C09", "histories", "stale-state/csproto-marshal-plain-differs", "csproto.Marshal of a runtime-served message differs from marshaling a fresh copy of its contents", desc, hx(want), hx(got))
+			return false
+		}
+		Count("histories", fmt.Sprint(desc), "ok-plain", len(got), len(got) > 0)
+		return true
+	}
+	if !check() {
+		return
+	}
+	for i := 0; i < 3; i++ {
+		log = append(log, "mutate("+mutateStruct(rn.r, reflect.ValueOf(tw))+")")
+		if !check() {
+			return
 		}
 	}
 }
